@@ -29,7 +29,10 @@ RULE = ("cases = (stage outcomes: syntax error | validation error | ambiguous/un
         "execution) x (document as text | parsed) x (query | mutation=serial) x random field tree (depth<=3, object/list/leaf "
         "fields, fields typed by an interface, the meta field __typename at root / nested / in list items / on the abstract type, "
         "introspection root fields __schema / __type with nested selections (their field trees derived from a reference run), per field outcome returns | raises ResolverError | argument coercion error, null and empty lists) x "
-        "4 executor/runtime configurations x 0..3 middlewares x instrumentation stack (1..3 leaves, flat or nested "
+        "root selection sets and sub-selections that collect to NOTHING (fields excluded by @skip / @include literally, through a "
+        "variable, through inline fragments and fragment spreads), a root selection whose directive condition cannot be evaluated, "
+        "4 executor/runtime configurations x 0..3 middlewares of every callable flavour (function, lambda, bound method, callable "
+        "instance, FALSY callable instances via __len__/__bool__/empty list subclass, functools.partial) x instrumentation stack (1..3 leaves, flat or nested "
         "MultiInstrumentation, optional ApolloTracer; members overriding ALL hooks or a non-empty subset: start-only, end-only, "
         "stage-only, field-only, field-end-only, field-start-only, query-only, random subsets; defined in one class, spread over a "
         "subclass chain, or set as instance attributes; a hidden full recorder gives the reference for what each partial member must see) x random completion schedule; plus a bounded-exhaustive block "
@@ -57,7 +60,7 @@ TRUSTED = [
 ]
 
 CONFIGS = ["blocking", "exec-blocking", "threadpool", "asyncio"]
-OUTCOMES = ["exec", "syntax", "validation", "opsel-ambiguous", "opsel-unknown", "vars", "subscription-op"]
+OUTCOMES = ["exec", "syntax", "validation", "opsel-ambiguous", "opsel-unknown", "vars", "subscription-op", "root-collect-error"]
 # Hang detection is PROGRESS based and independent of wall-clock time / CPU load: every configuration runs on ONE thread
 # (manual executor, private asyncio loop), so a hang = STALL_ITERS consecutive scheduling steps in which the event log did not
 # grow and nothing became completable. A first-pass hang verdict is only a suspicion: the case is re-run alone with bounds
@@ -127,7 +130,10 @@ def gen_template(rng, depth, counter, width=3):
             f = rng.choice(LEAF_FIELDS)
             sel = []
         counter[0] += 1
-        out.append({"k": "k%d" % counter[0], "f": f, "sel": sel})
+        out.append({"k": "k%d" % counter[0], "f": f, "sel": sel, "skip": rng.choice(SKIP_KINDS) if rng.random() < 0.12 else None})
+    if out and rng.random() < 0.06:        # the whole selection set collects to nothing
+        for t in out:
+            t["skip"] = rng.choice(SKIP_KINDS)
     return out
 
 
@@ -136,7 +142,11 @@ def instantiate(rng, tmpl, perr, allow_arg):
     nodes = []
     for t in tmpl:
         f = t["f"]
-        node = {"k": t["k"], "f": f, "sel": t["sel"]}
+        node = {"k": t["k"], "f": f, "sel": t["sel"], "skip": t.get("skip")}
+        if node["skip"]:
+            node["o"], node["c"] = "ret", {"t": "null"}      # never executed
+            nodes.append(node)
+            continue
         r = rng.random()
         if f in ("s", "sd") and allow_arg and r < 0.3:
             node["o"] = "arg"
@@ -204,7 +214,14 @@ def gen_case(rng, size=2):
         case["partial"] = gen_partial(rng, case["instr"])
     if outcome == "subscription-op":       # one root field, or validation (SingleFieldSubscriptions) rejects it first
         case["fields"] = case["fields"][:1]
+        case["fields"][0]["skip"] = None
         case["use_var"] = False
+    elif rng.random() < 0.08:              # EVERY root field excluded: the root selection set collects to nothing
+        for nd in case["fields"]:
+            nd["skip"] = rng.choice(SKIP_KINDS)
+        case["use_var"] = outcome == "vars"
+    case["send_sk"] = rng.random() < 0.5
+    case["mw_flavours"] = [rng.choice(MW_FLAVOURS) for _ in range(case["mws"])]
     return case
 
 
@@ -225,9 +242,17 @@ def is_deferred(config, f):
     return f.endswith("d")          # asyncio: `async def` resolvers
 
 
+SKIP_KINDS = ("lit-skip", "lit-include", "var", "inline", "frag")
+
+
+def live(nodes):
+    """the fields that collect_fields keeps: not excluded by @skip / @include (literally, through a variable, through a fragment)"""
+    return [n for n in nodes if not n.get("skip")]
+
+
 def count_nodes(fields):
     n = 0
-    for nd in fields:
+    for nd in live(fields):
         n += 1
         n += count_comp(nd["c"])
     return n
@@ -244,26 +269,53 @@ def count_comp(c):
 # ---------------------------------------------------------------------------------------------
 # abstract case -> real request
 # ---------------------------------------------------------------------------------------------
-def render_sel(tmpl, argmap, path):
+def render_sel(tmpl, argmap, path, ptype="Query", env=None):
+    """env: {"frags": [fragment definitions], "vars": set of variable names used}"""
+    env = env if env is not None else {"frags": [], "vars": set()}
     parts = []
     for t in tmpl:
         f = t["f"]
         if f == "__intro":
-            parts.append("%s: %s" % (t["k"], INTRO[t["intro"]]))
+            text = "%s: %s" % (t["k"], INTRO[t["intro"]])
+            if t.get("skip") == "var":
+                env["vars"].add("sk")
+                text = "... @skip(if: $sk) { %s }" % text
+            elif t.get("skip"):
+                text = "... @include(if: false) { %s }" % text
+            parts.append(text)
             continue
         args = ""
         if f in ("s", "sd"):
             args = "(x: %s)" % argmap.get(path + (t["k"],), "1")
         sub = ""
         if f in OBJ_FIELDS + LIST_FIELDS:
-            sub = " { %s }" % (render_sel(t["sel"], argmap, path + (t["k"],)) if t["sel"] else "zz: v")
-        parts.append("%s: %s%s%s" % (t["k"], f, args, sub))
+            child = "I" if f in ("i", "id") else "T"
+            sub = " { %s }" % (render_sel(t["sel"], argmap, path + (t["k"],), child, env) if t["sel"] else "zz: v")
+        text = "%s: %s%s" % (t["k"], f, args)
+        skip = t.get("skip")
+        if skip == "lit-skip":
+            text = "%s @skip(if: true)%s" % (text, sub)
+        elif skip == "lit-include":
+            text = "%s @include(if: false)%s" % (text, sub)
+        elif skip == "var":
+            env["vars"].add("sk")
+            text = "%s @skip(if: $sk)%s" % (text, sub)
+        elif skip == "inline":
+            text = "... @skip(if: true) { %s%s }" % (text, sub)
+        elif skip == "frag":
+            name = "Sk%d" % len(env["frags"])
+            env["frags"].append(None)
+            env["frags"][int(name[2:])] = "fragment %s on %s { %s%s }" % (name, ptype, text, sub)
+            text = "...%s @include(if: false)" % name
+        else:
+            text += sub
+        parts.append(text)
     return " ".join(parts)
 
 
 def arg_errors(fields, path, out):
     """template paths (keys only, indices dropped) of the fields whose literal argument must be ill-typed"""
-    for nd in fields:
+    for nd in live(fields):
         p = path + (nd["k"],)
         if nd["o"] == "arg":
             out[p] = '"oops"'
@@ -280,7 +332,7 @@ def _arg_errors_comp(c, p, out):
 
 def normalise_args(fields, argmap, path=()):
     """an ill-typed literal applies to EVERY instance of the template field (all list items): make the tree agree"""
-    for nd in fields:
+    for nd in live(fields):
         p = path + (nd["k"],)
         if p in argmap:
             nd["o"] = "arg"
@@ -300,31 +352,43 @@ def build_document(case):
     argmap = {}
     arg_errors(case["fields"], (), argmap)
     normalise_args(case["fields"], argmap)
-    tmpl = [{"k": n["k"], "f": n["f"], "sel": n["sel"], "intro": n.get("intro")} for n in case["fields"]]
-    body = render_sel(tmpl, argmap, ())
+    tmpl = [{"k": n["k"], "f": n["f"], "sel": n["sel"], "intro": n.get("intro"), "skip": n.get("skip")} for n in case["fields"]]
     kind = "mutation" if case["serial"] else "query"
     if case["outcome"] == "subscription-op":
         kind = "subscription"
-    decl = ""
-    if case["use_var"]:
-        decl = "($v: Int!)"
-        body += " kv: s(x: $v)"
+    env = {"frags": [], "vars": set()}
+    body = render_sel(tmpl, argmap, (), kind.capitalize(), env)
     out = case["outcome"]
+    decls = []
+    variables = {}
+    if case["use_var"]:
+        decls.append("$v: Int!")
+        body += " kv: s(x: $v)"
+        if out != "vars":
+            variables["v"] = 3
+    if "sk" in env["vars"]:
+        decls.append("$sk: Boolean = true")          # excluded through a variable: its declared default, or sent explicitly
+        if case.get("send_sk"):
+            variables["sk"] = True
+    if out == "root-collect-error":
+        # the root selection set's directive condition cannot be evaluated: a nullable variable with a default, sent as null
+        decls.append("$nb: Boolean = true")
+        body += " kz: v @skip(if: $nb)"
+        variables["nb"] = None
+    decl = "(%s)" % ", ".join(decls) if decls else ""
+    tail = (" " + " ".join(env["frags"])) if env["frags"] else ""
     opname = None
     if out == "syntax":
         text = "%s Q%s { %s " % (kind, decl, body)            # unterminated selection set
     elif out == "validation":
-        text = "%s Q%s { %s nope }" % (kind, decl, body)       # unknown field
+        text = "%s Q%s { %s nope }%s" % (kind, decl, body, tail)       # unknown field
     elif out == "opsel-ambiguous":
-        text = "%s Q%s { %s } query Other { zz: v }" % (kind, decl, body)
+        text = "%s Q%s { %s } query Other { zz: v }%s" % (kind, decl, body, tail)
     elif out == "opsel-unknown":
-        text = "%s Q%s { %s }" % (kind, decl, body)
+        text = "%s Q%s { %s }%s" % (kind, decl, body, tail)
         opname = "Missing"
     else:
-        text = "%s Q%s { %s }" % (kind, decl, body)
-    variables = {}
-    if case["use_var"] and out != "vars":
-        variables = {"v": 3}
+        text = "%s Q%s { %s }%s" % (kind, decl, body, tail)
     return text, opname, variables
 
 
@@ -336,7 +400,7 @@ def model_fields(case, opaque=None):
 
     def conv_nodes(nodes, path):
         out = []
-        for n in nodes:
+        for n in live(nodes):
             p = path + (n["k"],)
             if n["f"] == "__intro":
                 out.append(intro_node(cfg, n["k"], n["intro"], opaque))
@@ -442,6 +506,7 @@ def model_request(case):
         "opsel": "error" if out.startswith("opsel") else "ok",
         "vars": "error" if out == "vars" else "ok",
         "subscriptionOp": out == "subscription-op",
+        "rootCollectFails": out == "root-collect-error",
         "serial": bool(case["serial"]),
         "mws": case["mws"],
         "instr": model_instr(case["instr"], case.get("partial") or {}),
@@ -454,7 +519,7 @@ def plan_of(case):
     plan = {}
 
     def walk_nodes(nodes, path):
-        for n in nodes:
+        for n in live(nodes):
             p = path + (n["k"],)
             plan[p] = n
             walk_comp(n["c"], p)
@@ -653,7 +718,16 @@ def make_instr(instr, log, tracers, partial=None):
     return top
 
 
-def make_middlewares(n, log):
+MW_FLAVOURS = ("function", "lambda", "bound-method", "callable-instance", "falsy-len-instance", "falsy-bool-instance", "partial",
+               "callable-list-subclass")
+
+
+def make_middlewares(n, log, flavours=None):
+    """n recording middlewares; flavours[i] says what KIND of callable middleware i is (all behave identically).
+    (apply_middlewares only does functools.partial(mw, next): generator-based middlewares are not a thing in this library.)"""
+    import functools
+    flavours = flavours or []
+
     def mk(i):
         def mw(next_, root, ctx, info, **args):
             p = tuple(info.path)
@@ -663,7 +737,36 @@ def make_middlewares(n, log):
             finally:
                 log.append(("mw<", i, p))
         return mw
-    return [mk(i) for i in range(n)]
+
+    def flavour(i, kind):
+        fn = mk(i)
+        if kind == "lambda":
+            return lambda next_, root, ctx, info, **args: fn(next_, root, ctx, info, **args)
+        if kind == "partial":
+            def with_tag(tag, next_, root, ctx, info, **args):
+                return fn(next_, root, ctx, info, **args)
+            return functools.partial(with_tag, "tag")
+        if kind == "bound-method":
+            class Holder:
+                def handle(self, next_, root, ctx, info, **args):
+                    return fn(next_, root, ctx, info, **args)
+            return Holder().handle
+        if kind in ("callable-instance", "falsy-len-instance", "falsy-bool-instance"):
+            class Callable_:
+                def __call__(self, next_, root, ctx, info, **args):
+                    return fn(next_, root, ctx, info, **args)
+            if kind == "falsy-len-instance":
+                Callable_.__len__ = lambda self: 0           # e.g. a middleware object holding an (empty) registry
+            elif kind == "falsy-bool-instance":
+                Callable_.__bool__ = lambda self: False
+            return Callable_()
+        if kind == "callable-list-subclass":
+            class Chain(list):                                # an empty, hence falsy, container that is callable
+                def __call__(self, next_, root, ctx, info, **args):
+                    return fn(next_, root, ctx, info, **args)
+            return Chain()
+        return fn
+    return [flavour(i, flavours[i] if i < len(flavours) else "function") for i in range(n)]
 
 
 def run_real(case, scale=1):
@@ -684,7 +787,7 @@ def run_real(case, scale=1):
     log = rc.log
     tracers = [] if case.get("tracer") else None
     instr = make_instr(case["instr"], log, tracers, case.get("partial"))
-    mws = make_middlewares(case["mws"], log)
+    mws = make_middlewares(case["mws"], log, case.get("mw_flavours"))
     doc = text
     if not case["doc_is_text"]:
         doc = parse(text)
@@ -943,7 +1046,7 @@ def oracle(case, log, payload):
         if order != expect:
             if ("call", p) in idx:
                 continue            # already reported by the call-keyed check above
-            bad.append(("middleware-order:%s!=%s:%s:%s" % ("".join(map(str, order)), "".join(map(str, expect)), kindp, cfg),
+            bad.append(("middleware-order:%s!=%s:%s:%s%s" % ("".join(map(str, order)), "".join(map(str, expect)), kindp, cfg, flavour_tag(case, order, expect)),
                         "%s %s: middlewares entered in order %s, documented %s" % (kindp, pstr(p), order, expect)))
         elif m:
             s_ = idx.get(("field+", p), [])
@@ -958,6 +1061,13 @@ def oracle(case, log, payload):
     if payload is not None:
         bad += tracer_oracle(case, full_log, payload)
     return bad
+
+
+def flavour_tag(case, order, expect):
+    """which KIND of middleware went missing / was added"""
+    fl = case.get("mw_flavours") or []
+    missing = [fl[i] if i < len(fl) else "function" for i in expect if i not in order]
+    return (":missing=" + ",".join(sorted(set(missing)))) if missing else ""
 
 
 def is_meta_path(p, plan):
@@ -1057,9 +1167,13 @@ def shrink(case, failing, budget=60):
 
     def candidates(c):
         if c["mws"] > 0:
-            d = copy.deepcopy(c); d["mws"] -= 1; yield d
+            d = copy.deepcopy(c); d["mws"] -= 1; d["mw_flavours"] = (d.get("mw_flavours") or [])[:d["mws"]]; yield d
         if c["instr"] != 0:
             d = copy.deepcopy(c); d["instr"] = 0; yield d
+        if any(f != "function" for f in (c.get("mw_flavours") or [])):
+            d = copy.deepcopy(c)
+            d["mw_flavours"] = ["function"] * len(c["mw_flavours"])
+            yield d
         for key in sorted(c.get("partial") or {}):
             d = copy.deepcopy(c)
             del d["partial"][key]
@@ -1151,12 +1265,15 @@ def check_cases(ctx, cases):
                 return None
             seen = ctx.extra.setdefault("_shrunk", {})
             cls = sig.split(":")[0]
-            if seen.get(("n", cls), 0) >= 2:      # shrink the first cases of a failure class only (time)
-                ctx.fail(seen.get(("sig", sig), sig), what, {"case": case, "trace": tr})
+            if seen.get("n|" + cls, 0) >= 2:      # shrink the first cases of a failure class only (time)
+                ctx.fail(seen.get("sig|" + sig, sig), what, {"case": case, "trace": tr})
                 continue
-            seen[("n", cls)] = seen.get(("n", cls), 0) + 1
-            small, ssig = shrink(case, failing)
-            seen[("sig", sig)] = ssig or sig
+            seen["n|" + cls] = seen.get("n|" + cls, 0) + 1
+            try:
+                small, ssig = shrink(case, failing)
+            except Exception:  # noqa  (a shrinker problem must never hide the failure it was shrinking)
+                small, ssig = case, sig
+            seen["sig|" + sig] = ssig or sig
             ctx.fail(ssig or sig, what, {"case": small, "trace": real_trace(small)[0]})
     if not ctx.model_ok:
         return
@@ -1224,6 +1341,43 @@ def exhaustive_cases():
                             "mws": mws, "instr": 0, "tracer": False,
                             "fields": [leaf("b", "vd"), {"k": "q", "f": "__intro", "intro": intro, "sel": [], "o": "ret", "c": {"t": "leaf"}}, tn("t0")],
                             "sched": [1, 0] * 8})
+    # root selection sets that collect to NOTHING (every field excluded, each way of excluding), empty sub-selections after skipping
+    def skipped(nd, kind):
+        d = copy.deepcopy(nd)
+        d["skip"] = kind
+        return d
+    n = 0
+    for cfg in CONFIGS:
+        for serial in (False, True):
+            for kind in SKIP_KINDS + ("mixed",):
+                n += 1
+                kinds = [kind] * 3 if kind != "mixed" else list(SKIP_KINDS[:3])
+                root_none = [skipped(nd, kinds[i]) for i, nd in enumerate(forest)]
+                out.append({"config": cfg, "outcome": "exec", "doc_is_text": bool(n % 2), "serial": serial, "novalidate": False,
+                            "use_var": False, "mws": 1, "instr": [0, 1], "tracer": True, "send_sk": bool(n % 2),
+                            "fields": root_none, "sched": [0] * 12})
+                # one live root field whose sub-selection collects to nothing + skipped siblings
+                inner = copy.deepcopy(forest[0])
+                inner["sel"] = [dict(t, skip=kinds[0]) for t in inner["sel"]]
+                inner["c"]["fs"] = [skipped(x, kinds[0]) for x in inner["c"]["fs"]]
+                out.append({"config": cfg, "outcome": "exec", "doc_is_text": True, "serial": serial, "novalidate": False,
+                            "use_var": False, "mws": 2, "instr": 0, "tracer": False, "send_sk": not (n % 2),
+                            "fields": [skipped(forest[1], kinds[1]), inner, skipped(forest[2], kinds[2])], "sched": [1, 0] * 6})
+    # every middleware flavour at every position of a 2- and 3-chain
+    n = 0
+    for cfg in CONFIGS:
+        for fl in MW_FLAVOURS:
+            for pos in range(3):
+                n += 1
+                mws = 2 + (n % 2)
+                flavours = ["function"] * mws
+                flavours[pos % mws] = fl
+                out.append({"config": cfg, "outcome": "exec", "doc_is_text": True, "serial": bool(n % 2), "novalidate": False,
+                            "use_var": False, "mws": mws, "mw_flavours": flavours, "instr": 0, "tracer": False,
+                            "fields": copy.deepcopy(forest), "sched": [n % 3, 0, 1] + [0] * 9})
+        out.append({"config": cfg, "outcome": "exec", "doc_is_text": True, "serial": False, "novalidate": False, "use_var": False,
+                    "mws": 3, "mw_flavours": ["falsy-len-instance", "falsy-bool-instance", "callable-list-subclass"], "instr": 0,
+                    "tracer": False, "fields": copy.deepcopy(meta_forest), "sched": [0] * 12})
     # partial members: every preset x every style at every position of a 3-stack (flat and nested), all configurations
     presets = sorted(PARTIAL_PRESETS)
     n = 0
@@ -1304,27 +1458,29 @@ def probe_completion_resolver_error(ctx):
 
 
 def run(ctx):
-    probe_completion_resolver_error(ctx)
-    cases = corpus_cases() + exhaustive_cases()
-    ctx.extra["exhaustive_block_cases"] = len(cases)
-    check_cases(ctx, cases)
-    n = ctx.n(1500, 12000)
-    batch = []
-    for i in range(n):
-        if ctx.time_left() < 15:
-            ctx.notes.append("stopped generation early after %d random cases (time budget)" % i)
-            break
-        batch.append(gen_case(ctx.rng, size=2 if i % 5 else 3))
-        if len(batch) >= 300:
+    try:
+        probe_completion_resolver_error(ctx)
+        cases = corpus_cases() + exhaustive_cases()
+        ctx.extra["exhaustive_block_cases"] = len(cases)
+        check_cases(ctx, cases)
+        n = ctx.n(1500, 12000)
+        batch = []
+        for i in range(n):
+            if ctx.time_left() < 15:
+                ctx.notes.append("stopped generation early after %d random cases (time budget)" % i)
+                break
+            batch.append(gen_case(ctx.rng, size=2 if i % 5 else 3))
+            if len(batch) >= 300:
+                check_cases(ctx, batch)
+                batch = []
+        if batch:
             check_cases(ctx, batch)
-            batch = []
-    if batch:
-        check_cases(ctx, batch)
-    if ctx.samples == [] and cases:
-        c = cases[0]
-        ctx.sample({"case": {k: c[k] for k in ("config", "outcome", "serial", "mws", "instr")}, "document": build_document(copy.deepcopy(c))[0],
-                    "trace": real_trace(c)[0][:14]})
-    _cleanup(ctx)
+        if ctx.samples == [] and cases:
+            c = cases[0]
+            ctx.sample({"case": {k: c[k] for k in ("config", "outcome", "serial", "mws", "instr")}, "document": build_document(copy.deepcopy(c))[0],
+                        "trace": real_trace(c)[0][:14]})
+    finally:
+        _cleanup(ctx)
 
 
 def _cleanup(ctx):
